@@ -32,7 +32,7 @@ func decision(n Node) string {
 	switch n.K {
 	case "text", "expr", "void", "el":
 		return n.Tr
-	case "slot", "hcomment", "mcomment", "raw", "call":
+	case "slot", "hcomment", "mcomment", "raw", "call", "callb":
 		return n.After
 	}
 	return "v"
